@@ -131,7 +131,7 @@ fn unknown_types(c: &mut Case) {
 /// One scenario with every reply-eliciting record split across two reads at EVERY offset.
 fn split_sweep(c: &mut Case) {
     let sc = gen_scenario(&mut c.rng, false);
-    if sc.bytes.len() > 1500 || (c.ctx.miri() && sc.bytes.len() > 260) {
+    if sc.bytes.len() > 1500 || (c.ctx.miri() && sc.bytes.len() > 150) {
         return;
     }
     let pol = Policy { dest_pct: 50, dest_max: 64, consume_pct: 50, compress_pct: 30, consume_out_pct: 50 };
@@ -148,15 +148,15 @@ fn split_sweep(c: &mut Case) {
 
 pub fn run_all(ctx: &Ctx, evidence: Option<&PathBuf>) -> i32 {
     ctx.run_fixed("unknown-types", 256, unknown_types);
-    ctx.run_fixed("directed", ctx.dn(300), |c| {
+    ctx.run_fixed("directed", if ctx.miri() { 2 } else { ctx.dn(300) }, |c| {
         let sc = gen_scenario(&mut c.rng, c.index % 5 == 0);
         run(c, &sc, RunOpts::default());
         if c.index == 3 {
             c.l.sample(sc.desc.clone());
         }
     });
-    ctx.run_fixed("split-sweep-directed", ctx.dn(12), split_sweep);
-    let n = ctx.size3(40_000, 4_000_000, 8);
+    ctx.run_fixed("split-sweep-directed", if ctx.miri() { 0 } else { ctx.dn(12) }, split_sweep);
+    let n = ctx.size3(40_000, 4_000_000, 4);
     ctx.run_cases("replies", n, |c| {
         let big = ctx.scale == Scale::Full && c.rng.chance(1, 8);
         let sc = gen_scenario(&mut c.rng, big);
